@@ -25,7 +25,7 @@ func init() { register("C12", "model_checking", checkC12) }
 
 const posTraceCfg = `INIT TInit
 NEXT TNext
-INVARIANTS InFile NoOverlap LinesStrict CommentsSorted RankEqual NoPhantom Reprintable
+INVARIANTS InFile NoOverlap LinesStrict CommentsSorted RankEqual NoPhantom SpansCounted Reprintable
 POSTCONDITION Accepted
 CHECK_DEADLOCK FALSE
 `
@@ -40,6 +40,7 @@ type posFile struct {
 	RankF     []string `json:"rankF"`
 	Reprint   bool     `json:"reprint"`
 	Phantom   []string `json:"phantom"` // token positions the restored ast has and a fresh parse of its print has not
+	Spans     []string `json:"spans"`   // literals and comments whose text holds another number of line breaks than the line table counts between their ends
 	name      string
 	note      string
 	rankKey   string
@@ -125,7 +126,7 @@ func posObserveWith(files []*dst.File, names []string, reuseFileRestorer, extras
 	}
 	for fi := range files {
 		af := asts[fi]
-		pf := posFile{name: names[fi], Positions: []int{}, Comments: []int{}, RankR: []string{}, RankF: []string{}, Lines: []int{}, Phantom: []string{}}
+		pf := posFile{name: names[fi], Positions: []int{}, Comments: []int{}, RankR: []string{}, RankF: []string{}, Lines: []int{}, Phantom: []string{}, Spans: []string{}}
 		tf := r.Fset.File(af.Pos())
 		if tf == nil {
 			// no registered file contains the ast's position: report with an impossible range
@@ -194,6 +195,27 @@ func posObserveWith(files []*dst.File, names []string, reuseFileRestorer, extras
 				if id, ok := n.(*ast.Ident); ok && id.Obj != nil {
 					fromObj(id.Obj)
 				}
+			}
+		}
+		// a literal or a comment that spans lines spans them in the line table too (position reporting behind
+		// it would otherwise be off by its height)
+		span := func(what, text string, from, to token.Pos) {
+			if !from.IsValid() || int(to) > tf.Base()+tf.Size() {
+				return
+			}
+			if got, want := tf.Line(to-1)-tf.Line(from), strings.Count(text, "\n"); got != want { // to-1: the last character of the text
+				pf.note = fmt.Sprintf("%s %q: %d line breaks in the text, %d in the line table", what, truncate(text, 40), want, got)
+				pf.Spans = append(pf.Spans, fmt.Sprintf("%s %q: %d line breaks in the text, %d in the line table", what, truncate(text, 40), want, got))
+			}
+		}
+		for _, n := range nodesR {
+			if bl, ok := n.(*ast.BasicLit); ok {
+				span("literal", bl.Value, bl.Pos(), bl.End())
+			}
+		}
+		for _, cg := range af.Comments {
+			for _, cm := range cg.List {
+				span("comment", cm.Text, cm.Pos(), cm.End())
 			}
 		}
 		sort.Ints(pf.Positions)
@@ -362,6 +384,9 @@ func checkC12(c *Ctx) {
 		if i%8 == 3 {
 			groups = append(groups, group{[]int{i}, "extras-removed"})
 		}
+		if bytes.Contains(files[i].Src, []byte("`")) {
+			groups = append(groups, group{[]int{i}, "hand-literals"})
+		}
 	}
 	// import blocks that lose specs under import management (unused imports are removed): 2 -> 1, 3 -> 1, 3 -> 2, 2 -> 0
 	for i, src := range []string{
@@ -373,6 +398,15 @@ func checkC12(c *Ctx) {
 	} {
 		files = append(files, srcFile{fmt.Sprintf("imports-pruned-%d", i), []byte(src)})
 		groups = append(groups, group{[]int{len(files) - 1}, "imports-pruned"})
+	}
+	// literals replaced by hand-made ones (&dst.BasicLit{Value: ...}: the text only, Kind unset) - go/printer
+	// never looks at the Kind of a literal
+	for i, src := range []string{
+		"package p\n\nvar a = `x\ny\n\nz`\n\n// doc of b\nvar b = 1 // trailing\n\nfunc f() {\n\ts := `one\ntwo` // t\n\n\t_ = s\n}\n",
+		"package p\n\nconst (\n\tq = `\n`\n\n\t// r\n\tr = \"s\"\n)\n\nvar v = []string{\n\t`a\nb`,\n\t`c`, // c\n\n\t`d\n\ne`,\n}\n",
+	} {
+		files = append(files, srcFile{fmt.Sprintf("hand-literals-%d", i), []byte(src)})
+		groups = append(groups, group{[]int{len(files) - 1}, "hand-literals"})
 	}
 	// two files with range statements, restored with Extras into one file set
 	files = append(files, srcFile{"extras-range-a", []byte("package p\n\nfunc a(m map[string]int) (s string) {\n\tfor k, e := range m {\n\t\tif e > 0 {\n\t\t\ts = k\n\t\t}\n\t}\n\treturn\n}\n")},
@@ -453,6 +487,15 @@ func checkC12(c *Ctx) {
 						fd.Type = &dst.FuncType{TypeParams: fd.Type.TypeParams, Params: fd.Type.Params, Results: fd.Type.Results}
 					}
 				}
+			case "hand-literals":
+				dst.Inspect(df, func(n dst.Node) bool {
+					if bl, ok := n.(*dst.BasicLit); ok {
+						kept := bl.Decs
+						*bl = dst.BasicLit{Value: bl.Value}
+						bl.Decs = kept
+					}
+					return true
+				})
 			case "extras-removed":
 				// the first half of the declarations leaves the tree; objects of the rest still point there
 				if len(df.Decls) > 1 {
